@@ -6,10 +6,19 @@ import sys, os, json
 sys.path.insert(0, os.path.dirname(os.path.dirname(os.path.abspath(__file__))))
 from engine import build, facts
 names = set()
+params = {}
+os.environ["VERIF_NO_HEAD_PARAMS"] = "1"
 for cfg in ("B", "C", "A"):
     f = facts.load(build.build_facts(cfg))
     names |= {n for n, r in f.fns.items() if r.get("has_body")}
+    for n, b in f.bodies.items():
+        if "{closure" in n or b.is_coroutine:
+            continue
+        params[n] = [[b.rec["locals"][i].get("name"), b.rec["locals"][i]["ty"]] for i in range(1, b.arg_count + 1)]
 out = os.path.join(os.path.dirname(os.path.dirname(os.path.abspath(__file__))), "tables", "head_functions.json")
 json.dump({"doc": "function def-paths of the tree the rules were written against (see tools/mk_head_functions.py)",
            "functions": sorted(names)}, open(out, "w"), indent=0)
+json.dump({"doc": "parameter names of those functions: a rule that says `len(s)` means `len of parameter 1`; engine/facts.py "
+                  "labels parameters with these names whatever they are called now", "params": params},
+          open(os.path.join(os.path.dirname(out), "head_params.json"), "w"), indent=0, sort_keys=True)
 print(len(names), "functions")
